@@ -53,6 +53,10 @@ static std::vector<Conf> menu()
                "scriptedColvarForces on\n" + cv3 + "harmonic {\n name h1\n colvars d1\n centers 1.0\n forceConstant 2.0\n}\n"
                                                     "harmonic {\n name h2\n colvars d2\n centers 2.0\n forceConstant 1.0\n}\n",
                true, false, 5});
+  m.push_back({"scripted-force-task-after-biases",
+               "scriptedColvarForces on\nscriptingAfterBiases on\n" + cv3 + "harmonic {\n name h1\n colvars d1\n centers 1.0\n forceConstant 2.0\n}\n"
+                                                                             "harmonic {\n name h2\n colvars d2\n centers 2.0\n forceConstant 1.0\n}\n",
+               true, false, 5});
   // multiple-time-step variables: the set of variables that are awake, hence the list of work items, changes from step to
   // step (2 -> 3: d2 replaces d1 with the same number of components); explored over 4 steps (0..3) with few preemptions
   {
